@@ -82,7 +82,7 @@ SPEC = {
                   "status_moves_only_along_validTrans (statuses follow the matrix extracted from status.go, which is proved "
                   "equal to the stated one; operators keep region/epoch/steps), one_operator_per_region (a STARTED operator "
                   "is the one registered for its region, so two STARTED operators never share a region), "
-                  "leaving_running_set_is_ended (+ ..._is_recorded_at_sites_partial: every removeOperatorLocked+bury site ends and records the operator; records_always_name_ended_operators for every run), admit_only_equal_epoch, "
+                  "leaving_running_set_is_ended (+ ..._is_recorded_at_sites_partial: every removeOperatorLocked+bury site ends and records the operator; records_always_name_ended_operators for every run, recorded_region_stays_recorded, removed_operator_stays_accounted_for), admit_only_equal_epoch, "
                   "command_addressed_to_current_leader_with_current_epoch, stale_operator_cancelled_at_heartbeat (failed "
                   "CheckSafety or conf-version delta above ConfVerChanged => CANCELED at that heartbeat, whatever is "
                   "promoted afterwards). The model is tied to operator_controller.go / operator.go / status_tracker.go by "
